@@ -40,6 +40,24 @@ let string_of_err = function
   | ERecursion -> "ERecursion" | EOther -> "EOther"
 
 let res_bool = function Ok b -> "OK " ^ string_of_bool b | Err e -> "ERR " ^ string_of_err e
+let n_of_int n = if n = 0 then N0 else Npos (pos_of_int n)
+(* native alternatives: "E:5" or "I:lo;hi;excl" with lo/hi = "-" | "<int>i" | "<int>x", excl = "-" | ints separated by "."; alternatives separated by "|" *)
+let bound_of_string s =
+  if s = "-" then None
+  else let n = Stdlib.String.length s in
+    Some (z_of_int (int_of_string (Stdlib.String.sub s 0 (n - 1))), (Stdlib.String.get s (n - 1) = 'i'))
+let alt_of_string s =
+  match Stdlib.String.split_on_char ':' s with
+  | ["E"; v] -> AExact (z_of_int (int_of_string v))
+  | ["I"; rest] ->
+    (match Stdlib.String.split_on_char ';' rest with
+     | [l; h; x] ->
+       let ex = if x = "-" then [] else List.map (fun t -> z_of_int (int_of_string t)) (Stdlib.String.split_on_char '.' x) in
+       AIval { lo = bound_of_string l; hi = bound_of_string h; excl = ex }
+     | _ -> failwith ("bad interval " ^ s))
+  | _ -> failwith ("bad alternative " ^ s)
+let alts s = if s = "-" then [] else List.map alt_of_string (Stdlib.String.split_on_char '|' s)
+
 let res_clist = function Ok l -> "OK " ^ string_of_clist l | Err e -> "ERR " ^ string_of_err e
 
 (* Coq strings (extracted as an inductive type, no ExtrOcamlString) *)
@@ -148,6 +166,14 @@ let handle line =
                              let f x = if x then "1" else "0" in
                              "OK " ^ f o.o_eq ^ f o.o_ne ^ f o.o_lt ^ f o.o_le ^ f o.o_gt ^ f o.o_ge ^ " " ^ f h ^ " " ^ (match c with Lt -> "lt" | Eq -> "eq" | Gt -> "gt")
                            | Err e -> "ERR " ^ string_of_err e))
+  | ["nmatch"; e; v] -> "OK " ^ string_of_bool (z_nmatch (alts e) (z_of_int (int_of_string v)))
+  | ["nconstraints"; e] -> "OK " ^ string_of_clist (z_to_constraints (alts e))
+  | ["shorthand"; kind; a; b; c; x; y; z] ->
+      let n s = n_of_int (int_of_string s) in
+      let f = (match kind with
+               | "caret" -> x_native_caret | "tilde" -> x_native_same_minor | "majorx" -> x_native_same_major
+               | "nginxplus" -> x_native_nginx_plus | _ -> failwith "bad shorthand") in
+      "OK " ^ string_of_bool (f (n a) (n b) (n c) (n x) (n y) (n z))
   | ["refcmp"; cls; a; b] -> (match x_refcmp (coq_string cls) (unhex a) (unhex b) with
                              | None -> "NOREF"
                              | Some None -> "OUTSIDE"
